@@ -49,6 +49,19 @@ pub fn seq_report<M: SeqModel>(run: &mut Run, m: &M, res: &SeqResult, cfg: &SeqC
     for s in res.samples.iter() {
         run.sample(json!(names(&letters, s)));
     }
+    // determinism self-check: the sampled histories are re-executed twice on fresh worlds and
+    // must reach the same canonical state (a difference would make any verdict unreliable)
+    let mut checked = 0u64;
+    for s in res.samples.iter().take(6) {
+        let (_, k1) = crate::seq::run_history(m, s);
+        let (_, k2) = crate::seq::run_history(m, s);
+        if k1 != k2 {
+            eprintln!("machinery: nondeterminism - history {:?} reached two different states", names(&letters, s));
+            std::process::exit(2);
+        }
+        checked += 1;
+    }
+    run.cov_add("determinism_replays", checked);
     for v in res.violations.iter() {
         let hist = names(&letters, &v.history);
         run.violate(Violation {
